@@ -9,6 +9,7 @@
     outward, error bounds upward) and is run by Coq ([vm_compute] in the proofs)
     and, extracted, by the harness, on the trees regenerated from the C++ on every run. *)
 From Coq Require Import ZArith QArith Qminmax Qabs Qround List Bool.
+From Inovesa Require Import Base.Float32.
 Import ListNotations.
 
 Inductive prec := P32 | P64.
@@ -156,3 +157,46 @@ Fixpoint evalQ (e : fexpr) (f : Q) : Q :=
       | FDiv => evalQ a f / evalQ b f
       end
   end.
+
+(** ** executable IEEE evaluation on rationals (every binary32/binary64 value is a rational)
+
+    [rndQ p q]: the value of precision [p] nearest to [q], ties to even, subnormals, no overflow (the
+    generalisation of [Base.Float32.rnd32Q]; [rndQ P32 = rnd32Q] by computation; Proofs/FlEvalQP.v proves
+    that it is Flocq's rounding and that [fl_evalQ] is [FExprP.fl_eval_sel] on the reals).
+    [fl_evalQ contract e f]: every operation and conversion of [e] rounded to nearest in its precision;
+    with [contract = true] a product that is an operand of an addition or subtraction of the same
+    precision is not rounded (fused multiply-add: the left operand if it is a product, else the right). *)
+Definition rndQ (p : prec) (q : Q) : Q :=
+  if Qeq_bool q 0 then 0%Q else
+  let a := Qabs' q in
+  let t := (prec_bits p - 1)%Z in
+  let e := Z.max (Qlog2 a) (prec_emin p + t) in
+  let m := Qrne (a * Qpow2 (t - e)) in
+  let v := (inject_Z m * Qpow2 (e - t))%Q in
+  if Qle_bool 0 q then v else Qopp v.
+
+Definition prec_eqb (p q : prec) : bool :=
+  match p, q with P32, P32 | P64, P64 => true | _, _ => false end.
+
+Definition opQ (o : fop) (a b : Q) : Q :=
+  match o with FAdd => a + b | FSub => a - b | FMul => a * b | FDiv => a / b end.
+
+(** [fl_evalQ_gen contract rounded e f]: [rounded = false] asks for the unrounded value of the root operation *)
+Fixpoint fl_evalQ_gen (contract : bool) (rounded : bool) (e : fexpr) (f : Q) : Q :=
+  match e with
+  | FVar => f
+  | FLit q => q
+  | FNeg a => Qopp (fl_evalQ_gen contract true a f)
+  | FCast p a => rndQ p (fl_evalQ_gen contract true a f)
+  | FOp p o a b =>
+      let addsub := match o with FAdd | FSub => true | _ => false end in
+      let is_mul x := match x with FOp q FMul _ _ => prec_eqb p q | _ => false end in
+      let fuse_a := contract && addsub && is_mul a in
+      let fuse_b := contract && addsub && negb (is_mul a) && is_mul b in
+      let va := fl_evalQ_gen contract (negb fuse_a) a f in
+      let vb := fl_evalQ_gen contract (negb fuse_b) b f in
+      let x := opQ o va vb in
+      if rounded then rndQ p x else x
+  end.
+
+Definition fl_evalQ (contract : bool) (e : fexpr) (f : Q) : Q := fl_evalQ_gen contract true e f.
